@@ -65,6 +65,31 @@ def _sym_is_float(fn):
     return run
 
 
+def _lifted(fn):
+    """Every plain number stored inside an object array the code returns becomes a traced constant, so that the traced output
+    list does not depend on whether the code writes a matrix entry as the int 0, the float 0.0 or a computed value (plain
+    ints inside an object array would otherwise be reported as concrete structure and drop out of the list of expressions).
+    Integer-dtype arrays (index tables) and float runs (validation) are left as they are."""
+    import symtrace
+
+    def lift(t, x):
+        if isinstance(x, (tuple, list)):
+            return type(x)(lift(t, y) for y in x)
+        if isinstance(x, np.ndarray) and x.dtype == object:
+            out = np.empty(x.shape, dtype=object)
+            flat = out.reshape(-1)
+            for k, e in enumerate(x.reshape(-1)):
+                flat[k] = e if isinstance(e, symtrace.Sym) else t.lift(e)
+            return out
+        return x
+
+    def run(**kw):
+        res = fn(**kw)
+        t = next((e.t for a in kw.values() for e in np.asarray(a, dtype=object).reshape(-1) if isinstance(e, symtrace.Sym)), None)
+        return res if t is None else lift(t, res)
+    return run
+
+
 def kernels():
     from polliwog.shapes import cube, rectangular_prism, triangular_prism
     ks = []
@@ -212,6 +237,8 @@ Proof. intros. eexists. reflexivity. Qed.""" % {"O": O}, imports=_IMPORTS,
   exists r, triangular_prism ROps %(P1)s %(P2)s %(P3)s (PyFloat h) = Ok r.
 Proof. intros {vars} h H. eexists. apply (float_accepted %(P1)s %(P1)s %(P2)s %(P3)s h h H). Qed.""" % {"P1": P1, "P2": P2, "P3": P3},
         imports=_IMPORTS, expect_structure={"shape": [1], "dtype": "int64", "data": [0]}, validate_n=0))
+    for k in ks:
+        k.call = _lifted(k.call)
     return ks
 
 
